@@ -110,7 +110,7 @@ struct Plan {
 };
 
 // ---------------------------------------------------------------- seams (seams.cc)
-struct CallbackRec { int category; std::string msg; int err; };
+struct CallbackRec { int category; std::string msg; int err; void *arg = nullptr; };	// arg: the error_arg the object was created with (tells objects apart)
 
 struct FileFaults {	// stream behaviour for the streams opened during one operation
     long read_frag = 0;		// max bytes per read call (0 = unlimited)
